@@ -47,7 +47,15 @@ func (a *archiveReconciler) markObjectSetsForArchival(ctx context.Context,
 	objectDeployment adapters.ObjectDeploymentAccessor,
 ) error {
 	if len(objectsToArchive) == 0 {
-		return nil
+		// Nothing left to archive. Revisions archived by an earlier pass that ended before it
+		// could prune (the update went through but its response was lost, the process restarted)
+		// still count against the history limit.
+		for _, previousObjectSet := range previousObjectSets {
+			if !previousObjectSet.IsArchived() {
+				return nil
+			}
+		}
+		return a.garbageCollectRevisions(ctx, previousObjectSets, objectDeployment)
 	}
 
 	// We sort the objectsets to be archived in the increasing order
